@@ -142,6 +142,10 @@ func init() {
 				s.cfg.Ticks = v
 			case "first-range-in-order":
 				s.cfg.FirstRangeInOrder = v != 0
+			case "clock-small":
+				s.cfg.ClockSmall = v != 0
+			case "clock-horizon":
+				s.cfg.ClockHorizon = v
 			case "dpor":
 				s.cfg.DPOR = v != 0
 			case "now-monotone":
@@ -302,6 +306,10 @@ func init() {
 		"vfTime": func(s *State, fr *Frame, fn *ssa.Function, a []Value, d ssa.Value) (Value, bool) {
 			// an arbitrary wall-clock instant (same encoding and range as the time.Now stub, unordered)
 			name := strArg(a[0])
+			if s.cfg.ClockSmall {
+				sec, nsec := s.smallInstant(name)
+				return Struct{[]Value{nsec, sec, s.timeLocal()}}, false
+			}
 			sec := s.named(name+".sec", 64)
 			nsec := s.named(name+".nsec", 64)
 			s.assume(Ult(nsec, Const(64, 1000000000)))
